@@ -59,7 +59,7 @@ typedef struct _ctx m_ctx_t;
  * to avoid user calling m_mod_deregister() and invalidating the pointer.
  */
 struct _mod {
-    m_mod_states state;                     // module's state
+    _Atomic m_mod_states state;             // module's state; atomic: m_mod_state()/m_mod_is() may be called from any thread
     CONST m_mod_flags flags;                // Module's flags
     int pubsub_fd[2];                       // In and Out pipe for pubsub msg
     mod_stats_t stats;                      // Module's stats
